@@ -105,6 +105,9 @@ pub fn enabled_events(ex: &Exec) -> Vec<EvId> {
     let mut v = Vec::with_capacity(12);
     for (p, st) in ex.probes.iter().enumerate() {
         let p = p as u8;
+        if !st.can_act() && cfg.pull_after_end && st.has_tb && !st.sent_terminal && st.recv_terminal {
+            v.push(EvId::ProbePull(p));
+        }
         if st.can_act() {
             if cfg.probe_pull && (!cfg.pull_discipline || st.pulls_sent < st.hs_recv + st.data_recv)
             {
